@@ -1,0 +1,11 @@
+//go:build !verif
+
+// Package verifhook holds observation/perturbation hooks used by external verification tooling.
+// Without the 'verif' build tag every hook is an identity / no-op that inlines away.
+package verifhook
+
+// Permute returns the slice untouched.
+func Permute[T any](site string, items []T, key func(T) string) []T { return items }
+
+// Event does nothing.
+func Event(kind string, key string) {}
